@@ -26,6 +26,9 @@ def three_same(case, detail):
 
 
 RULES = [
+    ("C01-F8", "two results that share one input, each with its own same-typed constant operand (k1 * a, k2 * a with k1, k2 "
+               "on one signal type): the shared input's wire joins both constants into one network, so each result "
+               "sees k1 + k2", lambda c, d: c["family"] == "S8"),
     ("C01-F1", "a multi-condition decider (&&/|| before ':') gets no per-operand wire selection: operands and the "
                "copied value of the same signal type are summed on one network", multicond),
     ("C01-F2", "an untyped value is allocated signal-A although the program uses signal-A explicitly; with two more "
